@@ -992,16 +992,19 @@ struct MonC14 : Monitor {
     void check_timeouts(World &w, const glue_view &v) {
         for (int s = 1; s <= 2; s++) if (v.mapping_timeout[s] <= 0 || v.mapping_timeout[s] > 30) w.violate("C14", "timeout-range", fmt("active state %d has timeout %d s", s, v.mapping_timeout[s]));
     }
+    uint64_t entry_s = 0; // the clock second at which the operation entered the core: the engine stamps an input with the second it read on entry, however long the port's log calls then take
+    void pre_api(World &w, int, const Op &) override { entry_s = w.now / 1000; }
     void on_api(World &w, int, const Op &op, const glue_view &b, const glue_view &a, int64_t) override {
-        if (op.kind == OP_A_REINIT) { last_input_s[0] = w.now / 1000; inact_reset_s.erase(0); inact_dirty[0] = false; return; }
-        if (op.kind == OP_A_INACT) { inact_reset_s[0] = w.now / 1000; inact_dirty[0] = false; }
-        if ((op.kind == OP_A_TADD || op.kind == OP_A_MAP || op.kind == OP_A_CHARGE || op.kind == OP_A_SETMAP) && inact_reset_s.count(0) && w.now / 1000 - inact_reset_s[0] >= 29) inact_dirty[0] = true;
-        if (op.kind == OP_A_SETMAP) last_input_s[0] = w.now / 1000 - (uint64_t)op.a[1];
-        if (op.kind == OP_A_TICK && b.mapping_state != 0 && a.mapping_state == 0) last_input_s[0] = w.now / 1000; // the tick fed the timeout event
+        if (op.kind == OP_A_ADV || op.kind == OP_A_REINIT) entry_s = w.now / 1000; // these do not pass through pre_api
+        if (op.kind == OP_A_REINIT) { last_input_s[0] = entry_s; inact_reset_s.erase(0); inact_dirty[0] = false; return; }
+        if (op.kind == OP_A_INACT) { inact_reset_s[0] = entry_s; inact_dirty[0] = false; }
+        if ((op.kind == OP_A_TADD || op.kind == OP_A_MAP || op.kind == OP_A_CHARGE || op.kind == OP_A_SETMAP) && inact_reset_s.count(0) && entry_s - inact_reset_s[0] >= 29) inact_dirty[0] = true;
+        if (op.kind == OP_A_SETMAP) last_input_s[0] = entry_s - (uint64_t)op.a[1];
+        if (op.kind == OP_A_TICK && b.mapping_state != 0 && a.mapping_state == 0) last_input_s[0] = entry_s; // the tick fed the timeout event
         if (op.kind != OP_A_MAP) return;
         check_timeouts(w, b);
-        uint64_t el = w.now / 1000 - last_input_s[0];
-        last_input_s[0] = w.now / 1000;
+        uint64_t el = entry_s - last_input_s[0];
+        last_input_s[0] = entry_s;
         int in = (int)op.a[0];
         auto allowed = step(b.mapping_state, in, el, b.mapping_timeout, false);
         int ec = el == 0 ? 0 : (b.mapping_state && el + 1 == (uint64_t)b.mapping_timeout[b.mapping_state]) ? 1 : (b.mapping_state && el == (uint64_t)b.mapping_timeout[b.mapping_state]) ? 2 : (b.mapping_state && el == (uint64_t)b.mapping_timeout[b.mapping_state] + 1) ? 3 : 4;
